@@ -23,17 +23,18 @@ import (
 )
 
 type c35Scenario struct {
-	blocks          []fixtures.SynthSpec // initial local blocks
-	late            []fixtures.SynthSpec // blocks that appear locally after the first sync attempt
-	uploadCompacted bool
-	allowOOO        bool
-	concurrency     int
-	extLabels       map[string]string
-	extLabelsLater  map[string]string // external labels after the first sync attempt (reconfiguration)
-	wipeMetaFile    bool              // restart loses thanos.shipper.json
-	dropLocal       int               // index of a block removed locally after the first attempt (-1 none)
-	srcDir          string
-	lexOrder        bool
+	blocks           []fixtures.SynthSpec // initial local blocks
+	late             []fixtures.SynthSpec // blocks that appear locally after the first sync attempt
+	uploadCompacted  bool
+	allowOOO         bool
+	concurrency      int
+	extLabels        map[string]string
+	extLabelsLater   map[string]string // external labels after the first sync attempt (reconfiguration)
+	restartEverySync bool              // a new Shipper for every sync instead of one per process
+	wipeMetaFile     bool              // restart loses thanos.shipper.json
+	dropLocal        int               // index of a block removed locally after the first attempt (-1 none)
+	srcDir           string
+	lexOrder         bool
 }
 
 func (sc *c35Scenario) eligible(sp fixtures.SynthSpec) bool {
@@ -62,6 +63,7 @@ func runC35(x *simkit.Exec) {
 		sc.extLabels["replica"] = "r0"
 	}
 	sc.extLabelsLater = map[string]string{}
+	sc.restartEverySync = x.Bool("restartEverySync", 1, 3)
 	for k, v := range sc.extLabels {
 		sc.extLabelsLater[k] = v
 	}
@@ -193,16 +195,32 @@ func (sc *c35Scenario) execute(x *simkit.Exec, salt string, crashAt int, faults 
 			}
 		}
 
-		syncOnce := func() (int, error) {
-			root, err := os.OpenRoot(workDir)
-			if err != nil {
-				return 0, err
+		// One Shipper lives as long as its process: it is created at start and after a crash, not for every
+		// sync (a third of the scenarios restart the process before every sync, as the first version did).
+		var sh *shipper.Shipper
+		var shRoot *os.Root
+		closeProcess := func() {
+			if shRoot != nil {
+				shRoot.Close()
 			}
-			defer root.Close()
-			sh := shipper.New(h, root, shipper.WithSource(metadata.ReceiveSource),
-				shipper.WithLabels(func() labels.Labels { return lset }),
-				shipper.WithUploadCompacted(sc.uploadCompacted), shipper.WithAllowOutOfOrderUploads(sc.allowOOO),
-				shipper.WithUploadConcurrency(sc.concurrency), shipper.WithRegisterer(prometheus.NewRegistry()))
+			sh, shRoot = nil, nil
+		}
+		defer closeProcess()
+		syncOnce := func() (int, error) {
+			if sh == nil || sc.restartEverySync {
+				closeProcess()
+				root, err := os.OpenRoot(workDir)
+				if err != nil {
+					return 0, err
+				}
+				shRoot = root
+				sh = shipper.New(h, root, shipper.WithSource(metadata.ReceiveSource),
+					shipper.WithLabels(func() labels.Labels { return lset }),
+					shipper.WithUploadCompacted(sc.uploadCompacted), shipper.WithAllowOutOfOrderUploads(sc.allowOOO),
+					shipper.WithUploadConcurrency(sc.concurrency), shipper.WithRegisterer(prometheus.NewRegistry()))
+			} else {
+				s.Probe("c35.sync_by_long_lived_shipper")
+			}
 			return sh.Sync(ctx)
 		}
 
@@ -277,6 +295,7 @@ func (sc *c35Scenario) execute(x *simkit.Exec, salt string, crashAt int, faults 
 				}
 				if h.Crashed() {
 					s.Probe("c35.crashed_and_restarted")
+					closeProcess()
 					h.Revive()
 					if sc.wipeMetaFile {
 						_ = os.Remove(filepath.Join(workDir, shipper.DefaultMetaFilename))
